@@ -44,6 +44,7 @@ type HarnessCfg struct {
 	MethodSetHook func(e *Exec, x Iface, it *types.Interface) (bool, bool)
 	SymMethods bool
 	ReplayCuts bool
+	CtxTimers bool
 	Env map[string]string
 }
 
@@ -277,6 +278,9 @@ func (l *Loaded) parseDirective(h *HarnessCfg, sp *ssa.Package, line string) {
 		h.SymBytes = true
 	case "timers":
 		h.Timers = true
+		if len(f) > 1 && f[1] == "all" {
+			h.CtxTimers = true
+		}
 	case "env":
 		if h.Env == nil {
 			h.Env = map[string]string{}
